@@ -301,6 +301,15 @@ def generalized_time_to_datetime(string):
                 string))
 
 
+def format_year(date):
+    """Four digit year of given date. ``strftime('%Y')`` does not zero
+    pad years before 1000 on all platforms.
+
+    """
+
+    return '{:04d}'.format(date.year)
+
+
 def generalized_time_from_datetime(date):
     """Convert given ``datetime.datetime`` object `date` to an ASN.1
     generalized time string.
@@ -309,14 +318,14 @@ def generalized_time_from_datetime(date):
 
     if date.second == 0:
         if date.microsecond > 0:
-            string = date.strftime('%Y%m%d%H%M.%f').rstrip('0')
+            string = format_year(date) + date.strftime('%m%d%H%M.%f').rstrip('0')
         else:
-            string = date.strftime('%Y%m%d%H%M')
+            string = format_year(date) + date.strftime('%m%d%H%M')
     else:
         if date.microsecond > 0:
-            string = date.strftime('%Y%m%d%H%M%S.%f').rstrip('0')
+            string = format_year(date) + date.strftime('%m%d%H%M%S.%f').rstrip('0')
         else:
-            string = date.strftime('%Y%m%d%H%M%S')
+            string = format_year(date) + date.strftime('%m%d%H%M%S')
 
     if date.tzinfo is not None:
         if date.utcoffset():
@@ -365,9 +374,9 @@ def restricted_generalized_time_from_datetime(date):
         date -= date.utcoffset()
 
     if date.microsecond > 0:
-        string = date.strftime('%Y%m%d%H%M%S.%f').rstrip('0')
+        string = format_year(date) + date.strftime('%m%d%H%M%S.%f').rstrip('0')
     else:
-        string = date.strftime('%Y%m%d%H%M%S')
+        string = format_year(date) + date.strftime('%m%d%H%M%S')
 
     return string + 'Z'
 
